@@ -36,7 +36,6 @@ descriptions (an empty list means that the postcondition holds).
 """
 import re
 import math
-import decimal
 from decimal import Decimal
 from urllib.parse import unquote
 
